@@ -270,6 +270,8 @@ def crash_worlds(tier, seed):
             w = W.gen_world_linked_cross_seed(rng)
         if i % 8 == 5:
             w = W.gen_world_zero_piece_stale(rng)
+        if i % 8 == 1:
+            w = W.gen_world_same_length_neighbours(rng)
         w.threads = 1
         base = W.execute(w)
         _, m = count_ops(base)
@@ -490,6 +492,7 @@ PROPS = {
                 worlds=lambda t, s: [W.gen_world_dup_path(Rng(s, "c12-dup", 0))] + [W.gen_world_infohash_prefix_pair(Rng(s, "c12-pair", i)) for i in range(2)]
                                     + [W.gen_world_truncated_neighbour(Rng(s, "c12-trunc", i)) for i in range(8 if t == "quick" else 80)]
                                     + [W.gen_world_name_max(Rng(s, "c12-namemax", i)) for i in range(4 if t == "quick" else 40)]
+                                    + [W.gen_world_same_length_neighbours(Rng(s, "c12-neigh", i)) for i in range(10 if t == "quick" else 200)]
                                     + worlds_default(t, s, "c12", 300, 6000, tweak_threads)
                                     + partial_write_worlds(t, s, "c12-partial")),
     "C14": dict(module="TB.Props.C14", theorems=["C14_abort", "C14_pass2_ops", "C14_noflag"], clauses=["c14-", "c16-"],
